@@ -98,8 +98,12 @@ class Env:
         if r is None:
             g = self.ex.global_ptr(name)
             greg = self.ex.regions[next(iter(g.regions))]
-            r = self.ex.new_region('exc:' + name, size=None)
-            greg.fields[0] = (8, self.ex.ptr_to(r))
+            old = greg.fields.get(0)
+            if old is not None and isinstance(old[1], Ptr) and len(old[1].regions) == 1 and 0 not in old[1].regions:
+                r = self.ex.regions[next(iter(old[1].regions))]        # already materialised by a load during the run
+            else:
+                r = self.ex.new_region('exc:' + name, size=None)
+                greg.fields[0] = (8, self.ex.ptr_to(r))
             self.exc[name] = r
         return r
 
